@@ -85,6 +85,21 @@ PROPS = {
         level_note="Trusts Lean's kernel, the hand-written model and the harness. The dry-run clause is checked on the real binary, not proved (partial).",
         technique="Lean 4 proof + exhaustive differential correspondence",
     ),
+    "C20": dict(
+        modules=["Copia.Props.C20"], namespaces=["Copia.C20"], runner="rust", needs_cli=True,
+        assumptions=COMMON_ASSUME + [
+            "bincode 1.3 legacy format (fixint LE, u64 lengths, u32 variant tags, trailing bytes allowed, slice reader) is modelled for copia's types; serde/bincode internals are not verified",
+            "UTF-8 validity is a parameter of the model (instantiated with ByteArray.validateUTF8 in the driver)",
+            "allocation inside serde's Vec visitor (cautious pre-allocation) is observed, not proved; the one explicit allocation of the codec (read_buf.resize) is proved ≤ 16 MiB",
+        ],
+        trusted_base=["src/protocol.rs, signature.rs, delta.rs through the copia crate's public API; src/bin/copia/main.rs through the real binary"],
+        level_text="Kernel-checked theorems: decode(encode m ++ rest) = (m, rest) for all seven message kinds with arbitrary in-range fields (any number of blocks/ops, any literal data), "
+                   "Signature/Delta file round trips, header round trip + layout (COPA, version 1, LE length) + rejection (wrong magic/version/unknown type/oversize ⇒ error for EVERY 12 bytes), "
+                   "framed codec round trip, allocation bound of read_message for arbitrary input, and: the CLI front ends never reach the asserting constructor with an invalid block size. "
+                   "Tie: byte-exact encodings and decoded values compared on generated values and on mutated/truncated/random bytes; real `copia delta|patch` on every single-field corruption.",
+        level_note="Trusts Lean's kernel (propext, Quot.sound, Classical.choice), the hand-written model of the wire formats, the harness.",
+        technique="Lean 4 proof (parser/printer round trips by structural induction, omega for little-endian arithmetic) + byte-exact differential correspondence",
+    ),
     "C18": dict(
         modules=["Copia.Props.C18"], namespaces=["Copia.C18"], runner="rust",
         assumptions=COMMON_ASSUME + [
